@@ -75,6 +75,9 @@ def _feed(h, x):
         h.update(b"F:" + (b"nan" if x != x else repr(x).encode()))
     elif x is None or isinstance(x, (str, int, bool, bytes, np.generic)):
         h.update(type(x).__name__.encode() + b":" + repr(x).encode())
+    elif callable(x) and hasattr(x, "__qualname__"):
+        # a function handed over as an argument (combine={...}): identity by name, not by address
+        h.update(b"C:" + (getattr(x, "__module__", "") or "").encode() + b"." + x.__qualname__.encode())
     elif hasattr(x, "__next__") or hasattr(x, "__iter__"):
         _feed(h, list(x))
     else:
@@ -159,6 +162,16 @@ def build_world(tmpdir):
         for chrom, start, end, gene in baits[:14]:
             f.write(f"{chrom}\t{start}\t{end}\t{gene}\t0\t+\n")
     bedarr = tabio.read(bed_path, "bed")
+    # overlapping / nested / abutting rows on both strands with distinct names: merge, flatten and subdivide have
+    # something to combine, and the combiner actually used (default, caller's, stranded) shows in the result
+    strand_path = os.path.join(tmpdir, "stranded.bed")
+    with open(strand_path, "w") as f:
+        for row in (("chr1", 100, 300, "A", "+"), ("chr1", 250, 500, "B", "-"), ("chr1", 480, 600, "A", "+"),
+                    ("chr1", 900, 1000, "C", "-"), ("chr1", 950, 1200, "D", "-"), ("chr2", 10, 50, "E", "+"),
+                    ("chr2", 50, 80, "F", "-"), ("chr2", 60, 70, "G", "+")):
+            f.write("%s\t%d\t%d\t%s\t0\t%s\n" % row)
+    strandarr = tabio.read(strand_path, "bed")
+    from skgenome.combiners import first_of, last_of
     wdir = os.path.join(tmpdir, "written")
     os.makedirs(wdir, exist_ok=True)
     return {
@@ -166,6 +179,7 @@ def build_world(tmpdir):
         "flt_cn": ["cn"], "flt_ci_cn": ["ci", "cn"], "flt_sem_ampdel": ["sem", "ampdel"], "flt_ampdel": ["ampdel"],
         "thresholds": [-1.1, -0.25, 0.2, 0.7],
         "seg_fnames": [cns_path], "bedarr": bedarr, "wdir": wdir,
+        "strandarr": strandarr, "combine_first": {"gene": first_of}, "combine_last": {"gene": last_of, "strand": first_of},
         "stats_loc": ["mean", "median"], "stats_spread": ["stdev", "mad", "iqr"], "stats_int": ["ci", "pi"],
     }
 
@@ -265,6 +279,18 @@ def _menu():
         add("center_all_copy", est, ["cnr"], lambda w, p, est=est: _center(w["cnr"], est))
     add("merge", "targets", ["targets"], lambda w, p: w["targets"].merge())
     add("flatten", "targets", ["targets"], lambda w, p: w["targets"].flatten())
+    # the same methods where rows really combine, with the default, a caller-supplied and the stranded combiners
+    add("merge", "strand-default", ["strandarr"], lambda w, p: w["strandarr"].merge())
+    add("merge", "strand-stranded", ["strandarr"], lambda w, p: w["strandarr"].merge(stranded=True))
+    add("merge", "strand-combine-first", ["strandarr", "combine_first"],
+        lambda w, p: w["strandarr"].merge(combine=w["combine_first"]))
+    add("merge", "strand-combine-last", ["strandarr", "combine_last"],
+        lambda w, p: w["strandarr"].merge(combine=w["combine_last"]))
+    add("flatten", "strand-default", ["strandarr"], lambda w, p: w["strandarr"].flatten())
+    add("flatten", "strand-combine-first", ["strandarr", "combine_first"],
+        lambda w, p: w["strandarr"].flatten(combine=w["combine_first"]))
+    add("flatten", "strand-split-columns", ["strandarr"], lambda w, p: w["strandarr"].flatten(split_columns=["gene"]))
+    add("subdivide", "strandarr", ["strandarr"], lambda w, p: w["strandarr"].subdivide(100, 20))
     add("subtract", "access-targets", ["access", "targets"], lambda w, p: w["access"].subtract(w["targets"]))
     add("intersection", "cnr-cns", ["cnr", "cns"], lambda w, p: w["cnr"].intersection(w["cns"]))
     add("subdivide", "targets", ["targets"], lambda w, p: w["targets"].subdivide(300, 50))
@@ -576,6 +602,33 @@ def run(ctx: Ctx):
         behs.append({"events": [{"ev": "call", "c": c, "procs": 1, "seed": 0},
                                 {"ev": "perturb", "c": 0, "procs": 0, "seed": 7},
                                 {"ev": "call", "c": c, "procs": procs2, "seed": 0}], "pre": []})
+    # "when run after any other steps", for the cheap interval methods and table writers (they share helpers with
+    # module-level state: combiners, sorters): length-4 behaviours chosen so that every ordered pair (a before b) of the
+    # family occurs in at least one behaviour
+    fam = [c for c in range(1, len(M) + 1)
+           if M[c - 1]["op"] in ("merge", "flatten", "subdivide", "subtract", "intersection", "resize", "tabio_write")]
+    todo = {(a, b) for a in fam for b in fam if a != b}
+    rng = ctx.rng
+    n_fam = 0
+    while todo and len(fam) >= 4:
+        best, gain = None, -1
+        for _ in range(40):
+            a, b = sorted(todo)[rng.randrange(len(todo))]
+            rest = [c for c in fam if c not in (a, b)]
+            seq = [a, b] + rng.sample(rest, 2)
+            rng.shuffle(seq)
+            if seq.index(a) > seq.index(b):
+                i, j = seq.index(a), seq.index(b)
+                seq[i], seq[j] = seq[j], seq[i]
+            g = sum(1 for i in range(4) for j in range(i + 1, 4) if (seq[i], seq[j]) in todo)
+            if g > gain:
+                best, gain = seq, g
+        for i in range(4):
+            for j in range(i + 1, 4):
+                todo.discard((best[i], best[j]))
+        behs.append({"events": [{"ev": "call", "c": c, "procs": 1, "seed": 0} for c in best], "pre": []})
+        n_fam += 1
+    ctx.notes["interval_family"] = {"calls": len(fam), "behaviours": n_fam}
     # (c) file histories: exhaustive over pre-existing subsets and 1..5 writes
     for pre in ([], [0], [0, 1], [0, 2], [1], [0, 1, 2], [2]):
         for k in range(1, 6):
